@@ -639,6 +639,12 @@ class Evaluator:
             return
         a0 = args[0]
         t0 = typeclass(qt(a0))
+        if t0 == 'atomic':
+            # ++a, a += n, a = v ... on a std::atomic: one indivisible read-modify-write
+            for st2, loc in self.eval(a0, st):
+                for st3, ts in self.eval_args(args[1:], st2):
+                    yield st3, self.atomic_op(st3, loc, name, ts, n)
+            return
         if name in ('operator*', 'operator->') and len(args) == 1:
             if t0 == 'optional':
                 for st2, loc in self.eval(a0, st):
@@ -860,8 +866,18 @@ class Evaluator:
             for st3, ts in self.eval_args(args, st2):
                 yield from self.std_call(n, st3, recv, tc, name, ts, arg_nodes=args)
 
+    def atomic_op(self, st, loc, name, ts, n):
+        k = st.fresh()
+        res = ('atomicval', k)
+        reads = name in ('load', 'is_lock_free') or (name.startswith('operator ') and not name.startswith('operator='))
+        st.ev('atomic', loc, name, tuple(ts), res, site_of(n, st), 'R' if reads else 'W')
+        return res
+
     def std_call(self, n, st, recv, tc, name, ts, arg_nodes=None):
         s = site_of(n, st)
+        if tc == 'atomic':
+            yield st, self.atomic_op(st, recv, name, ts, n)
+            return
         if tc == 'optional':
             cur = self.load(st, recv, n)
             known = opt_content(cur)
@@ -1740,6 +1756,8 @@ def show_event(e):
         return 'RNG %s = %s(%s) @%s' % (show(e[1]), show(e[2]), show(e[3]), show_site(e[4]))
     if k == 'unknown':
         return 'UNKNOWN %s @%s' % (e[1], show_site(e[2]))
+    if k == 'atomic':
+        return 'ATOMIC %s.%s(%s) -> %s @%s' % (show(e[1]), e[2], ','.join(show(a) for a in e[3]), show(e[4]), show_site(e[5]))
     if k == 'swap':
         return 'SWAP %s <-> %s @%s' % (show(e[1]), show(e[2]), show_site(e[3]))
     return '%s %s' % (k, ' '.join(show(x) if isinstance(x, tuple) and x and isinstance(x[0], str) else str(x) for x in e[1:]))
